@@ -360,7 +360,9 @@ def _rec_prop(prop, rule):
         n = 1 if quick else 20
         fams = [Family("general", "rec", "RecTrace", rec_gen.generate("general", 250 * n, seed * 53 + int(prop[1:]))),
                 Family("backoff", "rec", "RecTrace", rec_gen.generate("backoff", 120 * n, seed * 59 + int(prop[1:]))),
-                Family("inflight", "rec", "RecTrace", rec_gen.generate("inflight", 200 * n, seed * 61 + int(prop[1:])))]
+                Family("inflight", "rec", "RecTrace", rec_gen.generate("inflight", 200 * n, seed * 61 + int(prop[1:]))),
+                Family("retrywindow", "rec", "RecTrace", rec_gen.generate("retrywindow", 250 * n, seed * 71 + int(prop[1:]))),
+                Family("lowwatermark", "rec", "RecTrace", rec_gen.generate("lowwatermark", 150 * n, seed * 73 + int(prop[1:])))]
         return design, fams, [prop], dict(
             rule=rule, nontrivial=lambda ops: any(o["op"] in ("fail", "inject") for o in ops),
             assumptions=["virtual time (testing/synctest); operations are instantaneous; refresh loop disabled",
